@@ -262,3 +262,43 @@ def locate(dg):
             res["piv"] = bytes(v[1:1 + n])
         i += l
     return res
+
+
+def structured_variants(dg, is_request):
+    """re-spellings / targeted changes of the OSCORE option value (the bit flips cannot insert or
+    remove bytes): -> list of (tag, datagram, must_reject).  must_reject=False marks spellings that
+    RFC 8613 itself cannot tell from the original (they are only compared with the reference)."""
+    loc = locate(dg)
+    if not loc or not loc.get("opt"):
+        return []
+    a, b = loc["opt"]
+    pos = loc["optpos"]
+    if a != pos + 1:            # extended delta/length header: keep the generator simple
+        return []
+    d = dg[pos] >> 4
+    v = bytes(dg[a:b])
+    out = []
+
+    def put(tag, nv, must):
+        if len(nv) < 13:
+            out.append((tag, dg[:pos] + bytes([(d << 4) | len(nv)]) + nv + dg[b:], must))
+
+    if not v:
+        put("zeroflag", b"\x00", True)
+        return out
+    n = v[0] & 7
+    h = v[0] & 0x10
+    k = v[0] & 0x08
+    if not k:
+        put("trailing", v + b"\xaa", True)
+    put("reserved", bytes([v[0] | 0x40]) + v[1:], True)
+    if 1 <= n <= 4:
+        # same nonce; the AAD of a request contains the Partial IV bytes, that of a response does not
+        put("pivzero", bytes([v[0] + 1]) + b"\x00" + v[1:], is_request)
+    if k and not h:
+        put("emptyctx", bytes([v[0] | 0x10]) + v[1:1 + n] + b"\x00" + v[1 + n:], False)
+    if k and len(v) > 1 + n + (1 + v[1 + n] if h else 0):
+        put("kidshort", v[:-1], True)
+    if n >= 1:
+        put("pivbyte", v[:n] + bytes([v[n] ^ 0x01]) + v[n + 1:], True)
+    return out
